@@ -314,6 +314,11 @@ class Sym:
             outs.extend(self._block(s.orelse, dict(o[1]), depth))
           else:
             outs.append(('fall', o[1]))
+        elif o[0] == 'continue':
+          if s.orelse:
+            outs.extend(self._block(s.orelse, dict(o[1]), depth))
+          else:
+            outs.append(('fall', o[1]))
         elif o[0] == 'break':
           outs.append(('fall', o[1]))
         else:
@@ -321,6 +326,8 @@ class Sym:
       return outs
     if isinstance(s, ast.Break):
       return [('break', env)]
+    if isinstance(s, ast.Continue):
+      return [('continue', env)]
     if isinstance(s, ast.Raise):
       return [('raise',)]
     if isinstance(s, ast.Return):
